@@ -22,19 +22,31 @@ EXPLANATION = (
     'on any rank storing the cell is one rank, which stores it; owned vertices are pairwise distinct, owned cells sum '
     'to the distinct cells, and once synchronised n_global equals the summed owned vertices on every rank and the ids '
     'are exactly 0..N-1. '
-    'Proved (Refine.Props.C06, no sorry, axioms within propext/Classical.choice/Quot.sound): eliminate_offset_spec '
-    '(the literal two-pointer loop lowers every id by the number of unused ids below it); elim_slices (on the literal '
-    'function: elimination slice by slice, the waiting unused list being offset meanwhile, equals one elimination by '
-    'the sorted union); active_parts_progress (every slice is non-empty and inside the rank range: the loop '
-    'terminates and skips no rank); sync_bijection_partial (under the explicit id invariant IdInv the map '
-    'old id -> new id = elim(all shifted unused) o shift is strictly monotone on every rank, identical on every rank '
-    'for a shared id, puts fresh ids after shared ones and orders them by rank, lands in [0,N) and is onto [0,N), '
-    'N = old_n_global + fresh - unused = the n_global every rank ends with); cellPartNode_min / cellOwner_unique / '
-    'cellOwner_agree (the owner is the part of a vertex with the smallest global id, a function of the cell\'s '
-    '(global, part) list alone, so all ranks that agree on the parts compute the same single owner). '
-    'NOT proved, tied by the streams only: the unrolling of the world-level loop syncGlobals into the closed form used '
-    'by sync_bijection_partial (evaluated by the kernel on a concrete 3-rank world in the property file); the '
-    'post-conditions of ghost and of ref_migrate_shufflin, the parallel reader placement and the reachability lift. '
+    'Proved (Refine.Props.C06, no sorry, axioms within propext/Classical.choice/Quot.sound): sync_bijection (headline, '
+    'full strength): for every world of per-rank id states satisfying SyncInv (common old_n_global <= new_n_global, '
+    'sorted_global non-decreasing, and the id invariant IdInv on the abstraction: fresh ids of rank r in '
+    '[old, old+k_r), all unused ids after the shift pairwise distinct, in range and disjoint from the live ids, every '
+    'id below old+sum k live or unused) the loop-by-loop model syncGlobals ends on every rank in the closed-form state '
+    '(sorted_global[i] -> newId r (sorted_global[i]), unused list empty, old_n_global = new_n_global = N), and newId '
+    'is strictly monotone on every rank, identical on every rank for a shared id, puts fresh ids after shared ones and '
+    'orders them by rank, lands in [0,N) and is onto [0,N) (newId_bijection); the unrolling (Refine.Lemmas.DistSync) '
+    'uses C17 allgather_spec/allgatherv_spec for the collectives and lifts eliminate_offset_spec (the literal '
+    'two-pointer loop lowers every id by the number of unused ids below it), elim_slices (slice-by-slice elimination, '
+    'the waiting unused list being offset meanwhile, equals one elimination by the sorted union) and '
+    'active_parts_progress (every slice non-empty and inside the rank range) by induction over the slice loop; '
+    'sync_table (every live slot named by the sorted arrays holds newId of its old id in global[] after the call); '
+    'cellPartNode_min / cellOwner_unique / cellOwner_agree (the owner is the part of a vertex with the smallest '
+    'global id, a function of the cell\'s (global, part) list alone, so all ranks that agree on the parts compute the '
+    'same single owner); counts_sum (from distInv: summed owned vertices are pairwise distinct ids, summed owned '
+    'cells equal the distinct cells, and once synchronised the summed owned count is n_global on every rank and the '
+    'owned ids are exactly 0..N-1); ghostRefresh_spec_partial (the store loop of ref_node_ghost_*: every entry named '
+    'by a received (global, values) pair takes exactly those values, every other entry - all owned ones - is '
+    'unchanged). Non-vacuity examples: a 3-rank world satisfying SyncInv, a 2-rank mesh satisfying distInv, the '
+    'literal ghost model on a 3-rank world. '
+    'NOT proved, tied by the streams only: that the alltoall/alltoallv exchanges of ghost hand every rank the '
+    '(global, owner values) pairs of its ghosts (full ghostRefresh_spec); the post-condition of ref_migrate_shufflin '
+    '(no shufflinSpec theorem), the parallel reader placement, preservation of the id invariant by the local '
+    'operations (IdInv_step) and the reachability lift. '
     'Tie: stream dist_fn runs the same op line (the id states / vertex tables of all ranks) through the real '
     'ref_node_synchronize_globals, ref_node_eliminate_unused_offset, ref_node_eliminate_active_parts, ref_cell_part, '
     'ref_node_ghost_* under mpiexec at np in {1,2,3,4,5,8} and through the model: identical lines required; it '
@@ -50,15 +62,15 @@ EXPLANATION = (
     'list) and compared with the real post-state. Independently the python oracles state the bijection and the C06 '
     'sentence directly on the implementation\'s lines.')
 ASSUMPTIONS = [
-    'sync_bijection is proved for the closed form (IdWorld.newId) under the explicit hypothesis IdInv (common '
-    'old_n_global >= 0, live ids of rank r in [0, old+k_r), all unused ids after the shift pairwise distinct, inside '
-    '[0, old+sum k) and disjoint from the shifted live ids, every id below old+sum k live somewhere or unused); that '
-    'the loop-by-loop model syncGlobals equals this closed form is not proved in general: it is kernel-evaluated on '
-    'concrete worlds, compared with the C on every generated world, and its per-rank loops are proved',
+    'sync_bijection is proved under the explicit hypothesis SyncInv (common old_n_global >= 0 with new_n_global >= '
+    'old_n_global on every rank, sorted_global non-decreasing and consistent with global[] as ref_node maintains it, '
+    'and IdInv: live ids of rank r in [0, old+k_r), all unused ids after the shift pairwise distinct, inside '
+    '[0, old+sum k) and disjoint from the shifted live ids, every id below old+sum k live somewhere or unused)',
     'the id invariant itself (maintained by ref_node_next_global / ref_node_remove during split/collapse/cavity) is '
     'not proved preserved here; the run-level oracle checks it on every real pre-state of ref_node_synchronize_globals',
-    'ghost refresh, ref_migrate_shufflin, the parallel reader placement and the history lift have no theorem: their '
-    'post-conditions are checked on dumps of real runs (distInv in Lean, the same sentence in python)',
+    'the exchanges of the ghost refresh, ref_migrate_shufflin, the parallel reader placement and the history lift '
+    'have no theorem: their post-conditions are checked on dumps of real runs (distInv in Lean, the same sentence in '
+    'python) and, for ghost, by the function-level diff',
     'MPI semantics is trusted as specified in Refine.Model.Comm (C17): allgather, allgatherv, alltoall, alltoallv',
     'integer width: ids and counts are unbounded Int/Nat in the model ((REF_INT) casts of counts, REF_GLOB ids are '
     'assumed not to wrap); the constant 100000 of the chunk heuristic is copied into the model',
